@@ -76,6 +76,8 @@ class Flow:
         self.tainted = set()
         self.dep = set()
         self.dep_ifs = []
+        self.fresh = set()      # names (re)assigned on this path
+        self.weak_dep = set()   # containers made sign-dependent in place
 
     # --- expression predicates
     def has_strip(self, e):
@@ -128,6 +130,9 @@ class Flow:
         if self.uses(e, self.dep):
             return True
         return False
+
+    def inside_dep_arm_node(self, node):
+        return self.inside_dep_arm(node)
 
     def inside_dep_arm(self, node):
         p = node
@@ -191,9 +196,13 @@ class Flow:
             if weak:
                 if tainted:
                     self.tainted.add(nm)
-                if dep:
+                if dep or any(self.inside_dep_arm_node(target)
+                              for _ in (0,)):
                     self.dep.add(nm)
+                    self.weak_dep.add(nm)
                 continue
+            self.fresh.add(nm)
+            self.weak_dep.discard(nm)
             if alias:
                 self.unstripped.add(nm)
             elif nm in self.unstripped:
@@ -227,6 +236,7 @@ class Flow:
                 if any(self.is_dep(a) for a in argexprs) or \
                         self.inside_dep_arm(s):
                     self.dep.add(nm)
+                    self.weak_dep.add(nm)
         elif isinstance(s, (ast.With,)):
             for it in s.items:
                 if it.optional_vars is not None:
@@ -258,6 +268,12 @@ class Flow:
                                 n.func.attr in MUTATORS and isinstance(
                                     n.func.value, ast.Name):
                             assigned.add(n.func.value.id)
+                            self.weak_dep.add(n.func.value.id)
+                        if isinstance(n, ast.Assign):
+                            for t in n.targets:
+                                if isinstance(t, ast.Subscript) and \
+                                        isinstance(t.value, ast.Name):
+                                    self.weak_dep.add(t.value.id)
             self.dep |= assigned
 
 
@@ -272,7 +288,7 @@ def expr_sign_dependent(flow, e):
 
 
 def check_function(R, func, subject, mode='return', emit=(),
-                   scope=None, rule='R-SIGN'):
+                   scope=None, rule='R-SIGN', graphs=('g',)):
     """Decide one instance.  Returns the number of observed paths.
 
     mode 'return': observations are return / yield values;
@@ -298,6 +314,8 @@ def check_function(R, func, subject, mode='return', emit=(),
     R.count('paths', len(plist))
     observed = 0
     bad = []
+    stale = []
+    signed_id = []
     bad_store = []
     stores = 0
     memo_params = set(func.params) - {subject, 'self'}
@@ -306,6 +324,16 @@ def check_function(R, func, subject, mode='return', emit=(),
         for it in path:
             kind = it[0]
             if kind == 'test':
+                if mode == 'emit':
+                    for n2 in ast.walk(it[1]):
+                        if isinstance(n2, ast.Compare) and len(
+                                n2.ops) == 1 and isinstance(
+                                    n2.ops[0], (ast.In, ast.NotIn)) and \
+                                isinstance(n2.comparators[0], ast.Name) \
+                                and n2.comparators[0].id in graphs and \
+                                isinstance(n2.left, ast.Name) and \
+                                flow.uses_unstripped(n2.left):
+                            signed_id.append((path, n2))
                 flow.enter_test(it[1], it[3])
             elif kind == 'loop':
                 node = it[1]
@@ -327,6 +355,14 @@ def check_function(R, func, subject, mode='return', emit=(),
                                     flow.inside_dep_arm(s)
                                 if not ok:
                                     bad.append((path, c))
+                                carriers = {
+                                    n.id for a in argexprs
+                                    for n in ast.walk(a)
+                                    if isinstance(n, ast.Name)
+                                    and n.id in flow.weak_dep
+                                    and n.id not in flow.fresh}
+                                if carriers and scope is not None:
+                                    stale.append((path, c, carriers))
                 if mode == 'return':
                     # yields
                     for n in au.walk_no_defs(s):
@@ -369,6 +405,23 @@ def check_function(R, func, subject, mode='return', emit=(),
                                 f'`{au.short(key)}` after the complement '
                                 f'of `{subject}` was applied'))
                 flow.stmt(s)
+    if stale:
+        path, node, carriers = stale[0]
+        R.violation(
+            rule, 'loop-carried', func.qualname, ','.join(sorted(carriers)),
+            f'`{au.short(node, 60)}` takes the complement mark from '
+            f'{sorted(carriers)}, which is created outside the loop and '
+            'only updated when a reference is complemented: after one '
+            'complemented reference every later one is marked too',
+            unit=func.unit.rel, line=node.lineno, path=pa.describe(path))
+    if signed_id:
+        path, node = signed_id[0]
+        R.violation(
+            rule, 'signed-identity', func.qualname, au.short(node, 40),
+            f'`{au.short(node)}` tests the signed reference against the '
+            'graph, whose nodes are unsigned: a complemented successor is '
+            'never found and is expanded again (duplicate edges)',
+            unit=func.unit.rel, line=node.lineno, path=pa.describe(path))
     if bad_store:
         path, node, why = bad_store[0]
         R.violation(
@@ -419,6 +472,12 @@ def loop_over(fn, target_has, nth=0):
 
 PARAM_INSTANCES = {
     'C01': [('dd.bdd.BDD._top_cofactor', 'u')],
+    # every route by which a function can be built
+    'C02': [('dd.bdd.BDD._top_cofactor', 'u'),
+            ('dd.bdd.BDD._cofactor', 'u'), ('dd.bdd.BDD._compose', 'f'),
+            ('dd.bdd.BDD._vector_compose', 'f'),
+            ('dd.bdd.BDD._quantify', 'u'), ('dd.bdd._copy_bdd', 'u'),
+            ('dd.bdd.BDD._load', 'u')],
     'C03': [('dd.bdd.BDD._quantify', 'u'),
             ('dd.bdd.BDD._top_cofactor', 'u')],
     'C04': [('dd.bdd.BDD._cofactor', 'u'), ('dd.bdd.BDD._compose', 'f'),
@@ -494,6 +553,7 @@ def r_sign(P, R):
             P, R, 'dd.mdd.bdd_to_mdd', 'z')
     if pid == 'C18':
         check_negated(P, R)
+        check_rectified(P, R)
     discover(P, R)
 r_sign.NAME = 'R-SIGN'
 
@@ -593,6 +653,46 @@ def check_negated(P, R):
         R.violation('R-SIGN', 'negated', f.qualname, 'return',
                     '`negated` is not the sign test of the node',
                     unit=f.unit.rel, line=f.lineno)
+
+
+RECTIFIED = ['dd.autoref.BDD.succ', 'dd.bdd.BDD.succ',
+             'dd.autoref.Function.low', 'dd.autoref.Function.high',
+             'dd.autoref.Function.level', 'dd.autoref.Function.var']
+
+
+def check_rectified(P, R):
+    """The documented rectified views (`succ`, `low`, `high`, ...) return
+    the stored successors of abs(u); the sign of u is exposed only by
+    `negated`.  A view that also pushes the sign down makes a traversal
+    that applies `negated` itself complement twice."""
+    for q in RECTIFIED:
+        f = P.func(q)
+        _annotate(f.node)
+        subj = [p for p in f.params if p != 'self']
+        names = set(subj) | {'self'}
+        hits = []
+        for n in au.walk_no_defs(f.node):
+            if isinstance(n, ast.Attribute) and n.attr == 'negated' and \
+                    isinstance(n.value, ast.Name) and n.value.id in names:
+                hits.append(n)
+            if isinstance(n, ast.Compare) and len(n.ops) == 1 and \
+                    isinstance(n.ops[0], (ast.Lt, ast.Gt)) and \
+                    au.const_int(n.comparators[0]) == 0:
+                t = au.src(n.left).replace(' ', '')
+                if t in ('self.node', 'u.node') or t in subj:
+                    hits.append(n)
+        if hits:
+            R.violation(
+                'R-SIGN', 'rectified-view-signed', q, 'sign',
+                f'`{au.short(hits[0])}`: this view is documented to '
+                'return the successors of the rectified node (the sign '
+                'is exposed by `negated`); making it depend on the sign '
+                'of the reference breaks traversals that expand with '
+                'low/high/succ and then apply `negated`',
+                unit=f.unit.rel, line=hits[0].lineno)
+        else:
+            R.holds('R-SIGN', q, 'rectified view: independent of the '
+                    'sign of the reference')
 
 
 def discover(P, R):
